@@ -102,6 +102,7 @@ func runCheck(args []string) {
 		cr.undecided = append(cr.undecided, "contract syntax: "+er)
 	}
 	cr.collect()
+	cr.preSolveChecks()
 	t1, t2 := 4, 45
 	if *tier == "thorough" {
 		t1, t2 = 10, 150
@@ -529,7 +530,9 @@ func (cr *checkRun) tryReplay(v violation, path string) violation {
 		} else {
 			fmt.Fprintf(&sb, "\nRESULT: no-failing-input-found (the obligation is not discharged; solver output below)\n")
 		}
-		if ob.fc != nil && ob.goal.S != "" && ob.Kind != "subset" && ob.Kind != "extra" {
+		if ob.RawQuery != "" {
+			fmt.Fprintf(&sb, "\n--- solver output ---\n%s\n--- query ---\n%s\n", truncate(ob.Model, 20000), truncate(ob.RawQuery, 200000))
+		} else if ob.fc != nil && ob.goal.S != "" && ob.Kind != "subset" && ob.Kind != "extra" {
 			q := ob.fc.query(ob)
 			if len(q) > 200000 {
 				q = q[:200000] + "\n; (truncated)\n"
